@@ -100,6 +100,11 @@ func c09Exercise(b c09Blob, which int) (outcome string, escaped string, readsAft
 			}()
 			p, err := res.MD.ICCProfile()
 			parts = append(parts, "ICCProfile:"+normErr(err))
+			// the accessors may be called any number of times
+			_, _ = res.MD.ICCProfileData()
+			if p2, err2 := res.MD.ICCProfile(); (p2 == nil) != (p == nil) || (err2 == nil) != (err == nil) {
+				parts = append(parts, "ICCProfile-second-call-differs")
+			}
 			if p == nil {
 				return
 			}
@@ -635,6 +640,9 @@ func c09Crafted(rng *core.RNG) []c09Blob {
 		tags = append(tags, imggen.ICCTag{Sig: "desc", Data: imggen.TextDescription("x")})
 		prof, _ := imggen.ICCSpec{Header: imggen.MinimalHeader(false), Tags: tags}.Build()
 		add("icc", "ICC", prof, "many-tags-one-block: 3000 tags sharing one 3000-byte block")
+	}
+	for _, f := range hostileSpecials() {
+		add("load", f.Truth.Format, f.Bytes, "special: "+f.Name)
 	}
 	// JPEG: 255 ICC chunks each of 1 byte, then each a full segment
 	{
